@@ -895,4 +895,230 @@ theorem emitAlt_local (cfg : Cfg) (cs : Nat) : ∀ (l : List GoNode) (a fin : Na
 end
 
 
+/-! ### decoding the flat code; track count; Nullmark / Goto pairing -/
+
+theorem decode_flatten : ∀ (c : Code) (fuel : Nat), (∀ i ∈ c, i.arityOk = true) → c.length ≤ fuel →
+    Capacity.decode fuel (flatten c) = some (c.map Instr.opcode)
+  | [], fuel, _, _ => by cases fuel <;> simp [flatten, Capacity.decode]
+  | i :: r, 0, _, hf => by simp at hf
+  | i :: r, fuel + 1, h, hf => by
+    have hi : i.arityOk = true := h i (by simp)
+    have ih := decode_flatten r fuel (fun j hj => h j (by simp [hj])) (by simpa using hf)
+    simp only [Instr.arityOk, Code.sizeOf?, beq_iff_eq] at hi
+    simp only [flatten, Instr.words, List.cons_append, Capacity.decode, Int.toNat_natCast, List.map_cons]
+    have hop : i.op % (flagMask + 1) = i.opcode := rfl
+    rw [hop]
+    cases hsz : opcodeSize[i.opcode]? with
+    | none => simp [hsz] at hi
+    | some n =>
+      cases n with
+      | zero => simp [hsz] at hi
+      | succ k =>
+        simp only [hsz, Option.some.injEq] at hi
+        have hk : k = i.args.length := by omega
+        subst hk
+        simp [ih]
+
+theorem trackCount_map : ∀ (c : Code), Capacity.trackCount (c.map Instr.opcode) = trackCount c
+  | [] => rfl
+  | i :: r => by
+    simp only [List.map_cons, Capacity.trackCount, trackCount, trackCount_map r]
+    rfl
+
+/-- number of instructions of `c` with opcode `x` -/
+def cnt (x : Nat) (c : Code) : Nat := Capacity.count x (c.map Instr.opcode)
+
+theorem cnt_nil (x : Nat) : cnt x [] = 0 := rfl
+theorem cnt_cons (x : Nat) (i : Instr) (r : Code) : cnt x (i :: r) = (if i.opcode = x then 1 else 0) + cnt x r := rfl
+theorem cnt_append (x : Nat) : ∀ (a b : Code), cnt x (a ++ b) = cnt x a + cnt x b
+  | [], b => by simp [cnt_nil]
+  | i :: r, b => by simp only [List.cons_append, cnt_cons, cnt_append x r b]; omega
+
+theorem leaf_not_nullmark : ∀ t ∈ leafOps, ∀ rtl ci, (t ||| bits rtl ci) % (flagMask + 1) ≠ opNullmark := by decide
+theorem bare_not_nullmark : ∀ t ∈ bareTypes, t % (flagMask + 1) ≠ opNullmark := by decide
+
+theorem cnt_null_i0 {t : Nat} (h : t % (flagMask + 1) ≠ opNullmark) : cnt opNullmark [i0 t] = 0 := by
+  simp [cnt_cons, cnt_nil, Instr.opcode, h]
+theorem cnt_null_i1 {t : Nat} {x : Int} (h : t % (flagMask + 1) ≠ opNullmark) : cnt opNullmark [i1 t x] = 0 := by
+  simp [cnt_cons, cnt_nil, Instr.opcode, h]
+theorem cnt_null_i2 {t : Nat} {x y : Int} (h : t % (flagMask + 1) ≠ opNullmark) : cnt opNullmark [i2 t x y] = 0 := by
+  simp [cnt_cons, cnt_nil, Instr.opcode, h]
+
+syntax "cnt_lit" : tactic
+macro_rules | `(tactic| cnt_lit) => `(tactic|
+  simp only [cnt_append, cnt_cons, cnt_nil, Instr.opcode, i0_op, i1_op, i2_op, opSetjump, opLazybranch, opTestref, opForejump,
+    opGoto, opSetmark, opGetmark, opBackjump, opCapturemark, opNullmark, opNullcount, opSetcount, opBranchcount, opBranchmark,
+    flagMask, Nat.reduceMod, Nat.reduceAdd, Nat.reduceEqDiff, if_true, if_false, Nat.reduceBEq] at *)
+
+mutual
+theorem emitNode_pairing (cfg : Cfg) : ∀ (n : GoNode) (a : Nat) (tb : Tables), n.ok = true →
+    cnt opNullmark (emitNode cfg a tb n).1 ≤ cnt opGoto (emitNode cfg a tb n).1
+  | .empty, a, tb, _ => by simp [emitNode, cnt_nil]
+  | .bare t, a, tb, h => by
+    simp only [emitNode]; rw [cnt_null_i0 (bare_not_nullmark t (by simpa [GoNode.ok] using h))]; omega
+  | .char t rtl ci ch, a, tb, h => by
+    simp only [emitNode]
+    rw [cnt_null_i1 (leaf_not_nullmark t (mem_leaf_char (by simpa [GoNode.ok] using h)) rtl ci)]; omega
+  | .set rtl ci s, a, tb, h => by
+    simp only [emitNode]; rw [cnt_null_i1 (leaf_not_nullmark opSet (by decide) rtl ci)]; omega
+  | .multi rtl ci s, a, tb, h => by
+    simp only [emitNode]; rw [cnt_null_i1 (leaf_not_nullmark opMulti (by decide) rtl ci)]; omega
+  | .ref rtl ci m, a, tb, h => by
+    simp only [emitNode]; rw [cnt_null_i1 (leaf_not_nullmark opRef (by decide) rtl ci)]; omega
+  | .charloop t rtl ci ch m n, a, tb, h => by
+    simp only [emitNode, cnt_append]
+    have h1 : cnt opNullmark [i2 (t ||| bits rtl ci) ch (repArg m n)] = 0 :=
+      cnt_null_i2 (leaf_not_nullmark t (mem_leaf_charloop (by simpa [GoNode.ok] using h)) rtl ci)
+    have h2 : cnt opNullmark [i2 ((if isOneFamily t = true then opOnerep else opNotonerep) ||| bits rtl ci) ch m] = 0 := by
+      split
+      · exact cnt_null_i2 (leaf_not_nullmark opOnerep (by decide) rtl ci)
+      · exact cnt_null_i2 (leaf_not_nullmark opNotonerep (by decide) rtl ci)
+    by_cases hm : m > 0 <;> by_cases hn : n > m <;> simp only [hm, hn, if_true, if_false, cnt_nil, h1, h2] <;> omega
+  | .setloop t rtl ci s m n, a, tb, h => by
+    simp only [emitNode, cnt_append]
+    have h1 : cnt opNullmark [i2 (t ||| bits rtl ci) ↑(internKey setKey tb.sets s).1 (repArg m n)] = 0 :=
+      cnt_null_i2 (leaf_not_nullmark t (mem_leaf_setloop (by simpa [GoNode.ok] using h)) rtl ci)
+    have h2 : cnt opNullmark [i2 (opSetrep ||| bits rtl ci) ↑(internKey setKey tb.sets s).1 m] = 0 :=
+      cnt_null_i2 (leaf_not_nullmark opSetrep (by decide) rtl ci)
+    by_cases hm : m > 0 <;> by_cases hn : n > m <;> simp only [hm, hn, if_true, if_false, cnt_nil, h1, h2] <;> omega
+  | .concat cs, a, tb, h => by
+    simp only [emitNode]; exact emitList_pairing cfg cs a tb (by simp [GoNode.ok] at h; exact h.2)
+  | .alt cs, a, tb, h => by
+    simp only [emitNode]; exact emitAlt_pairing cfg cs a _ tb (by simp [GoNode.ok] at h; exact h.2)
+  | .loop lzy m n c, a, tb, h => by
+    have ih1 := emitNode_pairing cfg c (a + loopHeadLen m n) tb (by simpa [GoNode.ok] using h)
+    simp only [emitNode]
+    generalize (emitNode cfg (a + loopHeadLen m n) tb c).1 = C1 at *
+    cases lzy <;> by_cases hcn : counted m n = true <;> by_cases hm : (m == 0) = true <;>
+      simp only [hcn, hm, if_true, if_false, Bool.false_eq_true, Nat.add_zero, List.append_nil] <;> cnt_lit <;> omega
+  | .capture m n c, a, tb, h => by
+    simp only [emitNode]
+    split
+    · have ih1 := emitNode_pairing cfg c (a + 1) tb (by simpa [GoNode.ok] using h)
+      generalize (emitNode cfg (a + 1) tb c).1 = C1 at *
+      cnt_lit; omega
+    · exact emitNode_pairing cfg c a tb (by simpa [GoNode.ok] using h)
+  | .group c, a, tb, h => by
+    simp only [emitNode]; exact emitNode_pairing cfg c a tb (by simpa [GoNode.ok] using h)
+  | .poslook c, a, tb, h => by
+    have ih1 := emitNode_pairing cfg c (a + 2) tb (by simpa [GoNode.ok] using h)
+    simp only [emitNode]
+    generalize (emitNode cfg (a + 2) tb c).1 = C1 at *
+    cnt_lit; omega
+  | .neglook c, a, tb, h => by
+    have ih1 := emitNode_pairing cfg c (a + 3) tb (by simpa [GoNode.ok] using h)
+    simp only [emitNode]
+    generalize (emitNode cfg (a + 3) tb c).1 = C1 at *
+    cnt_lit; omega
+  | .atomic c, a, tb, h => by
+    have ih1 := emitNode_pairing cfg c (a + 1) tb (by simpa [GoNode.ok] using h)
+    simp only [emitNode]
+    generalize (emitNode cfg (a + 1) tb c).1 = C1 at *
+    cnt_lit; omega
+  | .backrefcond1 m y, a, tb, h => by
+    have ih1 := emitNode_pairing cfg y (a + 6) tb (by simpa [GoNode.ok] using h)
+    simp only [emitNode]
+    generalize (emitNode cfg (a + 6) tb y).1 = C1 at *
+    cnt_lit; omega
+  | .backrefcond2 m y n, a, tb, h => by
+    have hok : y.ok = true ∧ n.ok = true := by simpa [GoNode.ok] using h
+    have ih1 := emitNode_pairing cfg y (a + 6) tb hok.1
+    simp only [emitNode]
+    generalize emitNode cfg (a + 6) tb y = r1 at *
+    have ih2 := emitNode_pairing cfg n (a + 6 + size cfg y + 3) r1.2 hok.2
+    generalize (emitNode cfg (a + 6 + size cfg y + 3) r1.2 n).1 = C2 at *
+    cnt_lit; omega
+  | .exprcond2 c y, a, tb, h => by
+    have hok : c.ok = true ∧ y.ok = true := by simpa [GoNode.ok] using h
+    have ih1 := emitNode_pairing cfg c (a + 4) tb hok.1
+    simp only [emitNode]
+    generalize emitNode cfg (a + 4) tb c = r1 at *
+    have ih2 := emitNode_pairing cfg y (a + 4 + size cfg c + 2) r1.2 hok.2
+    generalize (emitNode cfg (a + 4 + size cfg c + 2) r1.2 y).1 = C2 at *
+    cnt_lit; omega
+  | .exprcond3 c y n, a, tb, h => by
+    have hok : (c.ok = true ∧ y.ok = true) ∧ n.ok = true := by simpa [GoNode.ok] using h
+    have ih1 := emitNode_pairing cfg c (a + 4) tb hok.1.1
+    simp only [emitNode]
+    generalize emitNode cfg (a + 4) tb c = r1 at *
+    have ih2 := emitNode_pairing cfg y (a + 4 + size cfg c + 2) r1.2 hok.1.2
+    generalize emitNode cfg (a + 4 + size cfg c + 2) r1.2 y = r2 at *
+    have ih3 := emitNode_pairing cfg n (a + 4 + size cfg c + 2 + size cfg y + 4) r2.2 hok.2
+    generalize (emitNode cfg (a + 4 + size cfg c + 2 + size cfg y + 4) r2.2 n).1 = C3 at *
+    cnt_lit; omega
+  | .other t, a, tb, h => by simp [GoNode.ok] at h
+theorem emitList_pairing (cfg : Cfg) : ∀ (l : List GoNode) (a : Nat) (tb : Tables), okList l = true →
+    cnt opNullmark (emitList cfg a tb l).1 ≤ cnt opGoto (emitList cfg a tb l).1
+  | [], a, tb, _ => by simp [emitList, cnt_nil]
+  | c :: l, a, tb, h => by
+    have hok : c.ok = true ∧ okList l = true := by simpa [okList] using h
+    have ih1 := emitNode_pairing cfg c a tb hok.1
+    simp only [emitList]
+    generalize emitNode cfg a tb c = r1 at *
+    have ih2 := emitList_pairing cfg l (a + size cfg c) r1.2 hok.2
+    generalize (emitList cfg (a + size cfg c) r1.2 l).1 = C2 at *
+    cnt_lit; omega
+theorem emitAlt_pairing (cfg : Cfg) : ∀ (l : List GoNode) (a fin : Nat) (tb : Tables), okList l = true →
+    cnt opNullmark (emitAlt cfg a fin tb l).1 ≤ cnt opGoto (emitAlt cfg a fin tb l).1
+  | [], a, fin, tb, _ => by simp [emitAlt, cnt_nil]
+  | c :: l, a, fin, tb, h => by
+    have hok : c.ok = true ∧ okList l = true := by simpa [okList] using h
+    simp only [emitAlt]
+    split
+    · exact emitNode_pairing cfg c a tb hok.1
+    · have ih1 := emitNode_pairing cfg c (a + 2) tb hok.1
+      generalize emitNode cfg (a + 2) tb c = r1 at *
+      have ih2 := emitAlt_pairing cfg l (a + 2 + size cfg c + 2) fin r1.2 hok.2
+      generalize (emitAlt cfg (a + 2 + size cfg c + 2) fin r1.2 l).1 = C2 at *
+      cnt_lit; omega
+end
+
+
+/-! ### the whole program -/
+
+/-- the offsets at which the instructions of `c` start (without the end offset) -/
+def istarts (a : Nat) : Code → List Nat
+  | [] => []
+  | i :: r => a :: istarts (a + (1 + i.args.length)) r
+
+theorem starts_eq_istarts : ∀ (c : Code) (a : Nat), starts a c = istarts a c ++ [a + codeLen c]
+  | [], a => by simp [starts, istarts]
+  | i :: r, a => by
+    simp only [starts, istarts, codeLen_cons, List.cons_append, starts_eq_istarts r]
+    rw [show a + (1 + i.args.length) + codeLen r = a + (1 + i.args.length + codeLen r) by omega]
+
+theorem istarts_snoc (c : Code) (s : Instr) (a : Nat) : istarts a (c ++ [s]) = starts a c := by
+  induction c generalizing a with
+  | nil => simp [istarts, starts]
+  | cons i r ih => simp [istarts, starts, ih]
+
+theorem codeFromTree_jumps (cfg : Cfg) (root : GoNode) (h : root.ok = true) :
+    JOk (istarts 0 (codeFromTree cfg root).1) (codeFromTree cfg root).1 := by
+  have hsz := emitNode_size cfg root 2 ⟨[], []⟩
+  have ih1 := emitNode_jumps cfg root 2 ⟨[], []⟩ h
+  simp only [codeFromTree]
+  generalize (emitNode cfg 2 ⟨[], []⟩ root).1 = C1 at *
+  rw [← hsz, istarts_snoc]
+  jok_all
+
+theorem codeFromTree_local (cfg : Cfg) (cs : Nat) (root : GoNode) (h : root.ok = true) (hc : capsOk cfg cs root = true) :
+    AllLocal (codeFromTree cfg root).2.strings.length (codeFromTree cfg root).2.sets.length cs (codeFromTree cfg root).1 := by
+  have ih1 := emitNode_local cfg cs root 2 ⟨[], []⟩ h hc
+  simp only [codeFromTree]
+  generalize emitNode cfg 2 ⟨[], []⟩ root = r1 at *
+  obtain ⟨l1, s1, t1⟩ := ih1
+  loc_all
+
+theorem codeFromTree_pairing (cfg : Cfg) (root : GoNode) (h : root.ok = true) :
+    cnt opNullmark (codeFromTree cfg root).1 ≤ cnt opGoto (codeFromTree cfg root).1 := by
+  have ih1 := emitNode_pairing cfg root 2 ⟨[], []⟩ h
+  simp only [codeFromTree]
+  generalize (emitNode cfg 2 ⟨[], []⟩ root).1 = C1 at *
+  simp only [opStop] at *
+  cnt_lit; omega
+
+theorem codeFromTree_len (cfg : Cfg) (root : GoNode) : codeLen (codeFromTree cfg root).1 = size cfg root + 3 := by
+  simp [codeFromTree, codeLen_append, emitNode_size]; omega
+
+
 end RegexVerif.Writer
